@@ -117,6 +117,10 @@ func ResourcesUniverse(level string) *Universe {
 	aco.CreateOnly = []string{"created", "inner/a"}
 	aro := collection("annotatedRO", "annotatedROId", P(Int64), ann, false)
 	aro.ReadOnly = []string{"id", "items/*/o"}
+	// a record-typed field excluded as a whole, and the return-entity variants of create / partial_update
+	awh := collection("annotatedWhole", "annotatedWholeId", P(Int64), ann, true)
+	awh.ReadOnly = []string{"inner"}
+	awh.CreateOnly = []string{"items", "created"}
 	return u
 }
 
